@@ -7,7 +7,7 @@ from common import cbool
 ID = 'C05'
 GEN_MODULES = ['Ident', 'Classes', 'Flags']
 MODEL_TARGETS = ['coq/C05/Run.vo']
-PROOF_TARGETS = ['coq/C05/Proofs.vo', 'coq/C05/Keys.vo', 'coq/C05/KeysProofs.vo', 'build/Gen/Flags.vo']
+PROOF_TARGETS = ['coq/C05/Proofs.vo', 'coq/C05/Keys.vo', 'coq/C05/KeysProofs.vo', 'build/Gen/Flags.vo', 'coq/C05/Dispatch.vo']
 PROPS_FILE = 'coq/Props/C05.v'
 RUN_MODULE = 'QCE.C05.Run'
 COQ_HEADER = 'From Gen Require Import Ident Classes.\nFrom QCE Require Import Core.Model Core.Run.'
